@@ -8,7 +8,7 @@
         selected    => the processor's own transducer is applied to exactly that stream
      plus: one output per input stream, the package is yielded first, the resource stream is drained.
 """
-from contracts.common import (Item, mk_resource, mk_package, mk_package2, selector, dispatch_symbolic, gen_of,
+from contracts.common import (same_stream, Item, mk_resource, mk_package, mk_package2, selector, dispatch_symbolic, gen_of,
                               expect_no_raise_or_same, tree_writes_under, _b)
 
 TRUSTED = ['T1 pyvc model of Python (DESIGN 3)', 'T2 re: compile(p).fullmatch(s) is an uninterpreted predicate FULL(p, s)',
@@ -139,7 +139,7 @@ def sym_delete_resource(vc):
                     ys = yields_of(events)
                     tag = '%s,%s' % (kind, mode)
                     if mode == 'unselected':
-                        check(it, 'unselected-same-object[%s]' % tag, len(ys) == 1 and ys[0].obj is r)
+                        check(it, 'unselected-same-object[%s]' % tag, len(ys) == 1 and same_stream(it, ys[0].obj, r))
                         check(it, 'unselected-rows-not-pulled[%s]' % tag, r.stream.drained is False)
                     else:
                         check(it, 'selected-dropped[%s]' % tag, len(ys) == 0)
@@ -262,7 +262,7 @@ def sym_set_type(vc):
                         return
                     y = ys[0].obj
                     if mode == 'unselected':
-                        check(it, 'unselected-same-object[%s]' % tag, y is r)
+                        check(it, 'unselected-same-object[%s]' % tag, same_stream(it, y, r))
                         check(it, 'unselected-rows-not-pulled[%s]' % tag, r.stream.drained is False)
                     else:
                         # selected: either no field of this resource matched (passes as is) or the validator wraps it
